@@ -24,7 +24,9 @@ RULE = (
     "updates keep t.data the same ndarray object, backward() writes no gradient. Non-trivial = depth >= 2 with >= 2 "
     "distinct managers, or an exception crossing >= 1 scope, or re-entrant use; distinct by tree skeleton."
 )
-ASSUMPTIONS = ["turn_memory_guarding_on/off are only generated outside every scope, as the property states"]
+ASSUMPTIONS = ["turn_memory_guarding_on/off are generated outside every scope (they set the default) and directly inside the body of a "
+               "mem_guard_on/off scope (which must restore its entry setting whatever the body did); not inside no_autodiff "
+               "or try bodies, where the property does not say which setting survives"]
 
 
 class _Boom(Exception):
@@ -35,7 +37,7 @@ MANAGERS = ["na", "on", "off"]
 
 
 @st.composite
-def trees(draw, depth=0, budget=None):
+def trees(draw, depth=0, budget=None, turn_ok=True):
     if budget is None:
         budget = [draw(st.integers(4, 30))]
     nodes = []
@@ -45,7 +47,9 @@ def trees(draw, depth=0, budget=None):
             break
         budget[0] -= 1
         kinds = ["check", "prog", "ctx", "ctx", "ctx", "try", "raise"]
-        if depth == 0:
+        if turn_ok:
+            # the process-wide switch is flipped at depth 0 (sets the default) or directly inside the body of a
+            # mem_guard_on/off scope (whatever the body does, the scope restores the setting it found on entry)
             kinds += ["turn_on", "turn_off"]
         if depth >= 6:
             kinds = ["check", "prog", "raise"]
@@ -53,9 +57,9 @@ def trees(draw, depth=0, budget=None):
         if k == "ctx":
             m = draw(st.sampled_from(MANAGERS))
             how = draw(st.sampled_from(["with", "with", "deco"] + (["deco_np"] if m == "na" else [])))
-            nodes.append({"k": "ctx", "m": m, "how": how, "body": draw(trees(depth=depth + 1, budget=budget))})
+            nodes.append({"k": "ctx", "m": m, "how": how, "body": draw(trees(depth=depth + 1, budget=budget, turn_ok=m in ("on", "off")))})
         elif k == "try":
-            nodes.append({"k": "try", "body": draw(trees(depth=depth + 1, budget=budget))})
+            nodes.append({"k": "try", "body": draw(trees(depth=depth + 1, budget=budget, turn_ok=False))})
         elif k == "prog":
             nodes.append({"k": "prog", "i": draw(st.integers(0, 3))})
         else:
@@ -115,16 +119,14 @@ class Driver:
             k = node["k"]
             if k == "check":
                 self.expect(model, f"depth {depth}")
-            elif k == "turn_on":
-                self.mg.turn_memory_guarding_on()
-                model = (model[0], True)
-                self.top_model = model
-                self.expect(model, "after turn_memory_guarding_on")
-            elif k == "turn_off":
-                self.mg.turn_memory_guarding_off()
-                model = (model[0], False)
-                self.top_model = model
-                self.expect(model, "after turn_memory_guarding_off")
+            elif k in ("turn_on", "turn_off"):
+                (self.mg.turn_memory_guarding_on if k == "turn_on" else self.mg.turn_memory_guarding_off)()
+                model = (model[0], k == "turn_on")
+                if depth == 0:
+                    self.top_model = model  # outside every scope: the process-wide default
+                else:
+                    self.stats["turn_inside_scope"] = self.stats.get("turn_inside_scope", 0) + 1
+                self.expect(model, f"after {k} at depth {depth}")
             elif k == "raise":
                 raise _Boom()
             elif k == "try":
@@ -145,8 +147,8 @@ class Driver:
 
                 def body(node=node, inner=inner, depth=depth, stack=stack, m=m):
                     self.expect(inner, f"inside {m} at depth {depth + 1}")
-                    self.run(node["body"], inner, depth + 1, stack + [m])
-                    self.expect(inner, f"end of {m} body at depth {depth + 1}")
+                    end = self.run(node["body"], inner, depth + 1, stack + [m])  # (the body may flip the switch itself)
+                    self.expect(end, f"end of {m} body at depth {depth + 1}")
                     return np.arange(3.0)
 
                 try:
